@@ -174,8 +174,8 @@ pub fn run(ctx: &mut Ctx) {
                     cc.c.pt = CHANGE_PAIRS[pair].0;
                     cc.c.content = gen_content(&mut rng, pt_kind(cc.c.pt));
                     if typed {
-                        cc.dk = *rng.pick(&[DstKind::Typed, DstKind::CropMut, DstKind::NestedMut]);
-                        cc.sk = *rng.pick(&[SrcKind::Ref, SrcKind::Crop]);
+                        cc.dk = *rng.pick(&[DstKind::Typed, DstKind::CropMut, DstKind::NestedMut, DstKind::UserMut]);
+                        cc.sk = *rng.pick(&[SrcKind::Ref, SrcKind::Crop, SrcKind::User]);
                     } else {
                         cc.dk = *rng.pick(&[DstKind::DynImage, DstKind::DynCropMut]);
                         cc.sk = if cc.dk == DstKind::DynImage { *rng.pick(&[SrcKind::DynRef, SrcKind::DynCrop]) } else { SrcKind::DynRef };
